@@ -561,4 +561,27 @@ def dress(model, rng, *, time=None, depth=None, band=None, per_kind=(1, 2), miss
         extras.append(('index', int(rng.integers(2, 4))))
     add_variables(model, rng, per_kind=per_kind, extras=extras, missing=missing, dtypes=dtypes or DTYPES,
                   nongrid=nongrid, permute=permute, kinds=kinds, max_extra=max_extra)
+    if GRID_MAPPING_POLICY['on'] and chance(rng, 0.3):
+        # CF grid mapping: a dimensionless variable describing the coordinate reference system, named by the
+        # grid_mapping attribute of data variables. It is neither a geometry variable nor defined on any grid.
+        from .base import Var
+        name = pick(rng, ['crs', 'latitude_longitude'])
+        if name not in model.variables:
+            model.variables[name] = Var(name, None, [], [], model.fresh_ids(()), 'int32', None,
+                                        attrs={'grid_mapping_name': 'latitude_longitude', 'semi_major_axis': 6378137.0,
+                                               'inverse_flattening': 298.257223563})
+            for var in model.variables.values():
+                if var.kind is not None and chance(rng, 0.7):
+                    var.attrs['grid_mapping'] = name
+            model.grid_mapping = name
     return model
+
+
+GRID_MAPPING_POLICY = {'on': _os.environ.get('VMON_GRID_MAPPING', '1') == '1'}
+
+
+def set_grid_mapping(on):
+    """Some datasets carry a CF grid-mapping variable (drivers switch this on; mirrored in the environment for fresh
+    interpreters)."""
+    GRID_MAPPING_POLICY['on'] = bool(on)
+    _os.environ['VMON_GRID_MAPPING'] = '1' if on else '0'
